@@ -1,5 +1,5 @@
 (** One entry point for the extracted model runner: component number, numbers in, numbers out. *)
-From Remoc Require Import Lib.Base Run.RunCodec Run.RunRobsVec Run.RunRobsDeque Run.RunRobsList Run.RunRobsMap Run.RunRobsSet Run.RunPort Run.RunBroadcast Run.RunIoChan.
+From Remoc Require Import Lib.Base Run.RunCodec Run.RunRobsVec Run.RunRobsDeque Run.RunRobsList Run.RunRobsMap Run.RunRobsSet Run.RunPort Run.RunBroadcast Run.RunIoChan Run.RunBase.
 
 Definition run (comp : N) (inp : list N) : list N :=
   match comp with
@@ -12,5 +12,6 @@ Definition run (comp : N) (inp : list N) : list N :=
   | 135 => run_robs_set inp
   | 16 => run_broadcast inp
   | 18 => run_io inp
+  | 4 => run_base inp
   | _ => [97]
   end.
